@@ -38,6 +38,7 @@ var subExempt = map[string]string{
 	"syntax.(*CharSet).addCategory":                "builder",
 	"syntax.(*CharSet).addNamedASCII":              "builder",
 	"syntax.(*CharSet).makeAnything":               "only called where sub == nil was established (canonicalize guards, addSet on mergeable sets)",
+	"syntax.(*CharSet).unflip":                     "rewrites the base from its negated to its positive form: the members of the base are unchanged and the subtraction is not touched",
 	"syntax.(*CharSet).addLowercaseRange":          "helper of addLowercase: appends to ranges",
 	"syntax.(*CharSet).addLowercase":               "the parser applies it to the subtraction separately: scanCharSet recurses with the same caseInsensitive flag (checked by R-CASERECUR)",
 	"syntax.(*CharSet).addSet":                     "callers must have tested IsMergeable on both operands (checked below at every call site)",
